@@ -23,7 +23,8 @@ Judge(r, i) ==
           \cup (IF Safe(r) /\ ~r.leak /\ ~AsNormalised(r) /\ r.norm = Norm(r.segs)
                    /\ ~(r.method = "MULTIGET" /\ r.netpath)
                    \* a Slug header is a naming hint the server may ignore: only safety applies
-                   /\ r.method # "SLUG"
+                   \* (so is the UID inside an uploaded body)
+                   /\ r.method \notin {"SLUG", "UIDNAME"}
                   THEN {"not-answered-as-the-normalised-path"} ELSE {})
     IN {[k |-> IF d \in EnabledDevs THEN "known" ELSE "viol", i |-> i, dev |-> d] :
           d \in {"path:" \o r.method \o ":" \o Shape(r) \o ":" \o c : c \in clauses}}
